@@ -182,6 +182,34 @@ class SymWorld(S.World):
     def ld_rule(self, matrix, value, lemma):
         MX.add_logdet_rule(self, matrix, value, lemma)
 
+    def is_contract_inverse(self, X, Y):
+        """True iff Y is literally the atom Inv[X] (or X the atom Inv[Y]) handed out by the invert_matrix contract for
+        exactly this matrix: then X*Y = I holds by the callee's contract and needs no rewriting"""
+        for A, B in ((X, Y), (Y, X)):
+            try:
+                key, Af, occurring = MX.matrix_key(self, A)
+            except Exception:  # noqa
+                continue
+            rec = self.inv_registry.get(key)
+            if rec is None or not rec.get("registered"):
+                continue
+            Bf = B.fresh_copy()
+            e = Bf.expr
+            if e[0] != "atom" or e[1] != rec["inv"]:
+                continue
+            m = {}
+            for a_, b_ in zip(Af.axes, Bf.axes):
+                if a_.sorts() != b_.sorts():
+                    break
+                m.update(zip(a_.comps, b_.comps))
+            else:
+                row, col = Af.axes[-2].comps[0], Af.axes[-1].comps[0]
+                want = tuple(m.get(v, v) for v in occurring) + (m[row], m[col])
+                want2 = tuple(m.get(v, v) for v in occurring) + (m[col], m[row])
+                if all(x is y for x, y in zip(e[2], want)) or all(x is y for x, y in zip(e[2], want2)):
+                    return True
+        return False
+
     def ld_congruence(self, X, Y, lemma="det is a function of the matrix"):
         """ghost step: if the kernel proves X == Y then LogDet[X] := LogDet[Y] (also for LD atoms already created)"""
         ok = self.equal(f"hint/logdet-congruence", X, Y)
@@ -534,6 +562,9 @@ class NumWorld:
 
     def ld_rule(self, matrix, value, lemma):
         pass
+
+    def is_contract_inverse(self, X, Y):
+        return False
 
     def ld_congruence(self, X, Y, lemma=""):
         return self.equal("hint/logdet-congruence", X, Y)
